@@ -12,7 +12,11 @@ type Context struct {
 	IsDefineArg    bool
 	IsArrayCollect bool
 	IsDefineStatic bool
-	round          string
+	// IsLookahead marks the evaluation of an if/unless condition on a parser
+	// copy (narrowing lookahead): the real evaluation follows, so side records
+	// such as navigator call points are taken only there
+	IsLookahead bool
+	round       string
 }
 
 func NewContext(class string, method string, round string) Context {
